@@ -90,6 +90,12 @@ class World:
             L.append('class E%d(E%d):' % (c, parents[c]))
             if spec.get('discr'): L.append('    _discriminator_ = %r' % dv[c])
             L.append("    rf = Set('R', reverse='f')" if c == 1 else '    pass')
+            if c == 1:
+                # attributes and keys declared IN THE DERIVED ENTITY (single-table inheritance): columns n, n+1, …
+                for j, u in enumerate(spec.get('sub_unique') or []):
+                    L.append('    a%d = Optional(int%s)' % (n + j, ', unique=True' if u else ''))
+                for k in spec.get('sub_ckeys') or []:      # an inherited attribute is named by a string
+                    L.append('    composite_key(%s)' % ', '.join(('a%d' % i) if i >= n else ("'a%d'" % i) for i in k))
         L += ['class R(db.Entity):', "    e = Optional(E0, reverse='rs')"]
         if len(parents) > 1: L.append("    f = Optional(E1, reverse='rf')")
         if spec['with_h']: L += ['class H(db.Entity):', '    e = Optional(E0)']
@@ -117,13 +123,17 @@ class World:
         else:
             db.generate_mapping(create_tables=True)
         E0 = self.E0
-        self.attrs = [getattr(E0, 'a%d' % i) for i in range(n)]
+        nsub = len(spec.get('sub_unique') or []) if len(parents) > 1 else 0
+        KE = self.classes[1] if nsub else E0                     # the entity that knows every attribute and key
+        self.attrs = [getattr(KE, 'a%d' % i) for i in range(n + nsub)]
+        self.attr_cls = [0] * n + [1] * nsub                     # the class that declares attribute i
+        n = n + nsub
         self.pk_attrs = E0._pk_attrs_
         self.composite_pk = len(self.pk_attrs) > 1
         self.auto = pk == 'auto'
         # the model's schema is read back from the real classes
-        self.keys = [[self.attrs.index(a)] for a in E0._simple_keys_] + [[self.attrs.index(a) for a in k] for k in E0._composite_keys_]
-        self.key_objs = [a for a in E0._simple_keys_] + [k for k in E0._composite_keys_]      # keys of cache.indexes
+        self.keys = [[self.attrs.index(a)] for a in KE._simple_keys_] + [[self.attrs.index(a) for a in k] for k in KE._composite_keys_]
+        self.key_objs = [a for a in KE._simple_keys_] + [k for k in KE._composite_keys_]      # keys of cache.indexes
         # does a subclass number the read/write bits of its base's attributes differently (then a modified base-class stub cannot
         # be refined: NotImplementedError in _get_from_identity_map_)
         differ = any(sub._bits_.get(attr) != bit for base in self.classes for sub in self.classes
@@ -244,7 +254,16 @@ class World:
         if self.relpk == 'relpk': return [rng.randrange(1, 5), rng.randrange(1, 3)]
         if self.relpk == 'relpk1': return [rng.randrange(1, 5)]
         return [rng.randrange(1, 3), rng.randrange(1, 4)] if self.composite_pk else [rng.randrange(1, 7)]
-    def rand_create_kw(self, rng, explicit_auto=True):
+    def has_attr(self, o_or_cls, i):
+        c = o_or_cls if isinstance(o_or_cls, int) else self.cidx(o_or_cls)
+        return self.attr_cls[i] == 0 or 1 in self._ancestors(c)
+
+    def _ancestors(self, c):
+        out = []
+        while c is not None: out.append(c); c = self.spec['parents'][c]
+        return out
+
+    def rand_create_kw(self, rng, explicit_auto=True, cls=0):
         kw = {}
         if self.relpk:
             p = self.rand_pk(rng); kw['owner'] = p[0]              # the id of a Q; op_create passes the object
@@ -254,6 +273,7 @@ class World:
         elif not self.auto or (explicit_auto and rng.random() < 0.25):
             kw['id'] = self.rand_pk(rng)[0]
         for i in range(len(self.attrs)):
+            if not self.has_attr(cls, i): continue
             v = self.rand_val(rng)
             if v is not None or rng.random() < 0.3: kw['a%d' % i] = v
         return kw
@@ -669,10 +689,12 @@ class World:
         objs = []
         for o in self.objs:
             bits = o._bits_
+            own = [self.has_attr(o, i) for i in range(len(self.attrs))]
             objs.append({'cls': self.cidx(o), 'status': o._status_, 'pk': self.pkl(o),
-                         'vals': [self.slot(o._vals_, a) for a in self.attrs], 'dbvals': [self.slot(o._dbvals_, a) for a in self.attrs],
-                         'rbits': [bool((o._rbits_ or 0) & bits[a]) for a in self.attrs],
-                         'wbits': None if o._wbits_ is None else [bool(o._wbits_ & bits[a]) for a in self.attrs]})
+                         'vals': [self.slot(o._vals_, a) if h else '-' for a, h in zip(self.attrs, own)],
+                         'dbvals': [self.slot(o._dbvals_, a) if h else '-' for a, h in zip(self.attrs, own)],
+                         'rbits': [bool((o._rbits_ or 0) & bits.get(a, 0)) for a in self.attrs],
+                         'wbits': None if o._wbits_ is None else [bool(o._wbits_ & bits.get(a, 0)) for a in self.attrs]})
         def norm(ix, simple):
             out = []
             for k, o in ix.items():
